@@ -287,7 +287,8 @@ pub fn build(quick: bool) -> Check {
             Box::new(Sites { msgs }),
             Box::new(Handshakes { kinds: (0..KINDS.len()).step_by(if quick { 97 } else { 1 }).collect(), msgs: vec![vec![], b"denied #1".to_vec(), vec![b'm'; 600]] }),
             Box::new(Tables),
+            Box::new(super::aftermath::Aftermath { prop: "C13" }),
         ],
-        required: vec!["errors_to_other_handshakes", "errors_after_resultset_header", "golden_rows_checked", "client_crate_rows_checked", "anchors_checked"],
+        required: vec!["aftermath_recovered", "errors_to_other_handshakes", "errors_after_resultset_header", "golden_rows_checked", "client_crate_rows_checked", "anchors_checked"],
     }
 }
